@@ -145,6 +145,7 @@ class PermutationReciprocalTransformer(BaseReciprocalTransformer):
         if hasattr(self, "knn_"):
             # the nearest neighbour index belongs to the previous permutation
             del self.knn_
+        return self
 
     def _check_is_fitted(self):
         if not hasattr(self, "permutation_"):
